@@ -286,8 +286,16 @@ def independence(G, ctx):
                                     (jnp.zeros(3),), (0,), None),
     }
     for name, (f, args, ia, asz) in progs.items():
-        out = np.asarray(G.seed(G.modular_vmap(f, in_axes=ia, axis_size=asz))(jr.key(2), *args)).reshape(-1)
-        case = {"kind": "independence", "program": name, "values": out.tolist()}
+        case = {"kind": "independence", "program": name}
+        try:
+            out = np.asarray(G.seed(G.modular_vmap(f, in_axes=ia, axis_size=asz))(jr.key(2), *args)).reshape(-1)
+        except Exception as ex:      # every program here is one modular_vmap must map: scan / cond / nested maps inside, sites with lane-independent parameters
+            impl.reset_handlers()
+            ctx.property_failure(None, f"{name}: seed(modular_vmap(f)) raised {type(ex).__name__}: {str(ex)[:140]} on a function with sampling sites inside "
+                                 "scan / cond / nested maps, which modular_vmap must map lane-wise", case)
+            ctx.case(nontrivial_key=("indep", name))
+            continue
+        case["values"] = out.tolist()
         if len(set(out.tolist())) != out.size:
             ctx.property_failure(None, f"{name}: lanes/draws share values - one draw was broadcast instead of one independent draw per lane", case)
         ctx.case(sample=case, nontrivial_key=("indep", name))
